@@ -672,7 +672,7 @@ fn gen_faults(r: &mut Rng, sample: &[u8], text: bool, nfiles: usize) -> Vec<Faul
 impl TCheck {
     fn cfg(&self) -> SetCfg {
         match self.0 {
-            Prop::C17 => SetCfg { exotic: false, conflicts: false, overlaps: false, all_debug: false, max_files: 3 },
+            Prop::C17 => SetCfg { exotic: true, conflicts: false, overlaps: false, all_debug: false, max_files: 3 },
             Prop::C18 => SetCfg { exotic: true, conflicts: false, overlaps: false, all_debug: false, max_files: 3 },
             Prop::C19 => SetCfg { exotic: true, conflicts: false, overlaps: false, all_debug: false, max_files: 3 },
             Prop::C20 => SetCfg { exotic: false, conflicts: true, overlaps: true, all_debug: true, max_files: 4 },
@@ -841,12 +841,27 @@ impl TCheck {
                 }
                 let trees = all_trees(n);
                 out.add("fired.link-order", trees.len() as u64);
-                let set_ref = ref_of(&gens, &(0..n).collect::<Vec<_>>());
+                // what each object file carries into a link: a file assembled without debug symbols
+                // and without externals has no symbol table at all, so it exports no labels
+                let eff: Vec<GenFile> = gens
+                    .iter()
+                    .zip(s.files.iter())
+                    .map(|(g, f)| {
+                        let mut g = g.clone();
+                        if !f.debug && g.obj.labels.values().all(|(_, e)| !*e) {
+                            g.obj.labels.clear();
+                            g.obj.spelling.clear();
+                            g.obj.line_text.clear();
+                        }
+                        g
+                    })
+                    .collect();
+                let set_ref = ref_of(&eff, &(0..n).collect::<Vec<_>>());
                 let all_debug = s.files.iter().all(|f| f.debug);
                 let mut successes = 0usize;
                 let mut env = LinkEnv { objs: &objs, gens: &gens, ent: s.entropy, counter: 0, link_errs: vec![], panic: None };
                 for (ti, t) in trees.iter().enumerate() {
-                    let gens_ref = &gens;
+                    let gens_ref = &eff;
                     let files = &s.files;
                     let mut on_node = |o: &ObjectFile, order: &[usize]| -> Option<(String, String)> {
                         let what = format!("link tree {} node over files {order:?}", tree_str(t));
@@ -860,8 +875,9 @@ impl TCheck {
                         match p {
                             Prop::C20 if node_debug => cmp_obj(o, &r, &what).map(|(c, d)| (format!("linked-{c}"), d)),
                             Prop::C21 => {
-                                // (objects without symbol tables cannot carry externals through a link; D10)
-                                if node_debug { c21_node(o, &r, &what) } else { None }
+                                // every node: with or without debug symbols (files without a symbol table
+                                // export no labels, see `eff` above)
+                                c21_node(o, &r, &what)
                             }
                             Prop::C22 if node_debug => c22_node(o, &r, &what),
                             _ => None,
@@ -985,6 +1001,27 @@ impl TCheck {
                         let _ = ObjectFile::link(surv.clone(), objs[v].clone());
                         let _ = ObjectFile::link(objs[v].clone(), surv.clone());
                     })),
+                    ("link-with-conflicting-twin", Box::new(|| {
+                        // the victim's own source assembled at shifted origins: same labels, different
+                        // addresses, so the link fails with a label conflict whose spans are built from
+                        // whatever positions the (possibly damaged) survivor carries
+                        let mut tf = s.files[v].clone();
+                        for b in tf.opts.blocks.iter_mut() {
+                            b.0 = if b.0 < 0x9000 { b.0 + 0x5000 } else { b.0 - 0x4000 };
+                        }
+                        tf.debug = true;
+                        if let Ok(twin) = assemble_file(&regen(&tf), true) {
+                            for (x, y) in [(surv.clone(), twin.clone()), (twin, surv.clone())] {
+                                if let Err(e) = ObjectFile::link(x, y) {
+                                    use lc3_ensemble::err::Error as _;
+                                    let _ = e.span.first();
+                                    let _ = e.span.iter().count();
+                                    let _ = e.span().map(|sp| sp.first());
+                                    let _ = e.help();
+                                }
+                            }
+                        }
+                    })),
                     ("load-and-run", Box::new(|| {
                         let mut sim = Simulator::new(lc3_ensemble::sim::SimFlags { machine_init: lc3_ensemble::sim::mem::MachineInitStrategy::Known { value: 0 }, ..Default::default() });
                         if sim.load_obj_file(&surv).is_ok() {
@@ -1091,6 +1128,20 @@ fn inject_src_fault(src: &str, kind: u8, at: u32) -> String {
             lines.push(".orig x3000\n.blkw 9\n.end\n.orig x3004\n.fill 7\n.end".into());
         }
         10 => lines.push("LATE_LABEL".into()),
+        12 => {
+            // declared external first, then defined locally at a non-zero address
+            lines.insert(0, format!("{}.external Dup_E", if at % 2 == 0 { "" } else { "   " }));
+            if let Some(i) = find(&lines, ".end", k) {
+                lines.insert(i, "dup_e .fill 3".into());
+            }
+        }
+        13 => {
+            // defined locally first, declared external afterwards
+            if let Some(i) = find(&lines, ".end", k) {
+                lines.insert(i, "Dup_F .fill 3".into());
+            }
+            lines.push(".external DUP_F".into());
+        }
         _ => lines.push(".orig xFFF0\n.blkw 32\n.end".into()),
     }
     lines.join("\n")
@@ -1130,7 +1181,7 @@ impl Check for TCheck {
     }
     fn quick_runs(&self) -> u64 {
         match self.0 {
-            Prop::C19 => 20_000,
+            Prop::C19 => 10_000,
             Prop::C20 | Prop::C21 | Prop::C22 => 1_500,
             _ => 4_000,
         }
@@ -1146,13 +1197,16 @@ impl Check for TCheck {
                 s.victim = r.below(s.files.len() as u64) as usize;
                 s.text_format = r.bool();
                 // faults are drawn against a sample serialization of the victim (for boundary bias)
+                // (in a simulated process: chunk order in the sample depends on hash order, and
+                // generation must not depend on which worker thread happens to run it)
                 let g = regen(&s.files[s.victim]);
-                let sample = assemble_file(&g, s.files[s.victim].debug).ok().map(|o| if s.text_format { TextFormat::serialize(&o).into_bytes() } else { BinaryFormat::serialize(&o) }).unwrap_or_default();
+                let (dbg, txt) = (s.files[s.victim].debug, s.text_format);
+                let sample = in_proc(s.entropy, move || assemble_file(&g, dbg).ok().map(|o| if txt { TextFormat::serialize(&o).into_bytes() } else { BinaryFormat::serialize(&o) }).unwrap_or_default()).unwrap_or_default();
                 s.faults = gen_faults(r, &sample, s.text_format, s.files.len());
             }
             Prop::C26 => {
                 if r.chance(1, 2) {
-                    s.src_fault = Some((r.below(12) as u8, r.below(64) as u32));
+                    s.src_fault = Some((r.below(14) as u8, r.below(64) as u32));
                     s.files.truncate(1);
                 }
             }
